@@ -19,8 +19,8 @@ pub fn spec() -> Spec {
         case_cap_s: |t| t.pick(300, 3600),
         rule: "family 'exhaustive': every k x n exponent matrix with entries in [-e, e] for the listed (n, k, e), turned into relators g1^a1 g2^a2 ..., plus 9 metamorphic variants of each (relators reversed / inverted / rotated / conjugated, generators swapped / inverted, product of two relators appended, letters interleaved differently, duplicate relator); family 'walk' (explicit-state BFS): from diagonal seeds, every matrix reachable by <= d elementary unimodular row/column operations (add c*other for c in +-1,+-2; swap; negate), deduplicated, the answer must stay the seed's; family 'dsym': crate presentations of fundamental groups of all DSyms outputs over DSets(2, <= N). Oracle: invariant factors from determinantal divisors (gcd of all k x k minors), for shapes > 4 by i128 elimination with overflow detection; result ascending, no 1s, one 0 per free generator. Non-trivial = rank >= 1 and some invariant factor other than 1, or a free part together with torsion.",
         assumptions: &[],
-        bounds: |t| json!({"exhaustive_nke": if t.is_thorough() { json!([[2,2,3],[3,2,2],[2,3,2],[3,3,1],[3,3,2],[4,2,1],[2,4,1],[1,3,4],[3,1,4]]) } else { json!([[2,2,3],[3,2,2],[2,3,2],[3,3,1],[1,3,4],[3,1,4]]) },
-            "walk_depth_small_shapes": t.pick(3, 4), "walk_depth_large_shapes": t.pick(2, 3), "walk_coefficients": [1, -1, 2, -2], "dsym_dsets_max_size": t.pick(6, 8)}),
+        bounds: |t| json!({"exhaustive_nke": if t.is_thorough() { json!([[2,2,9],[3,2,3],[2,3,3],[3,3,2],[4,2,1],[2,4,1],[4,3,1],[3,4,1],[1,3,4],[3,1,4]]) } else { json!([[2,2,6],[3,2,2],[2,3,2],[3,3,2],[4,2,1],[2,4,1],[1,3,4],[3,1,4]]) },
+            "walk_depth_small_shapes": t.pick(4, 5), "walk_depth_3x3": 3, "walk_depth_large_shapes": t.pick(2, 2), "walk_coefficients": [1, -1, 2, -2], "dsym_dsets_max_size": t.pick(6, 8)}),
     }
 }
 
@@ -326,8 +326,9 @@ fn diag_seeds(len: usize) -> Vec<Vec<i64>> {
 fn run(ctx: &mut Ctx) {
     let tier = ctx.tier;
     let mut nke: Vec<(usize, usize, i64)> = vec![(2, 2, 3), (3, 2, 2), (2, 3, 2), (3, 3, 1), (1, 3, 4), (3, 1, 4)];
+    nke.extend([(3, 3, 2), (4, 2, 1), (2, 4, 1), (2, 2, 6)]);
     if tier.is_thorough() {
-        nke.extend([(3, 3, 2), (4, 2, 1), (2, 4, 1)]);
+        nke.extend([(2, 2, 9), (3, 2, 3), (2, 3, 3), (4, 3, 1), (3, 4, 1)]);
     }
     for (n, k, e) in nke {
         let with_variants = !(n == 3 && k == 3 && e == 2);
@@ -352,7 +353,7 @@ fn run(ctx: &mut Ctx) {
     for &(r, c) in &shapes_small {
         for d in diag_seeds(r.min(c)) {
             if ctx.take() {
-                walk(ctx, r, c, &d, tier.pick(3, 4).min(if r * c >= 9 { tier.pick(2, 3) } else { 9 }));
+                walk(ctx, r, c, &d, tier.pick(4, 5).min(if r * c >= 9 { tier.pick(3, 3) } else { 9 }));
             }
         }
     }
